@@ -18,7 +18,7 @@ from crosshair.tracers import NoTracing
 from ..chrun import Chooser
 from ..common import Check, HarnessError
 from .. import stublex
-from ..recorder import Recorder
+from ..recorder import Recorder, same_scope
 
 TWIN = False
 PRE = "PRE"
@@ -126,8 +126,9 @@ def h_step(access: str, anon0: int, c0: int, c1: int) -> bool:
     evs = rec.events[n0:]
     if len(evs) != len(expect):
         return False
-    if p.state is not st or p.visitor is not visitor0:
+    if not same_scope(p.state, st) or p.visitor is not visitor0:
         return False
+    st = p.state
     if sets is None:
         if st.access != access:
             return False
